@@ -89,17 +89,23 @@ pub open spec fn acc<V: Value>(e: Endian, c: Cells<V>, bk: Option<SecMap>, addre
         if apos(e, n, j) < k { full_at(e, c, bk, address + apos(e, n, j)).unwrap() } else { 0u8 })
 }
 
+/// what one round of the single-byte fallback computes: b8 is the byte at address + k, z its zero
+/// extension to n bytes, s that shifted to the byte's position, new_r the accumulator or-ed with s
+pub open spec fn acc_step_pre<V: Value>(e: Endian, c: Cells<V>, bk: Option<SecMap>, address: u64, n: int, k: int,
+    old_r: Option<V>, b8: V, z: V, s: V, new_r: V) -> bool {
+    &&& 0 <= k < n
+    &&& val_ok(b8) && b8.vbits() == 8 && reads(e, c, bk, (address + k) as u64, b8) && address + k <= u64::MAX
+    &&& z.vwf() && z.vbits() == 8 * n && z.le_bytes() == zext_bytes(b8.le_bytes(), n as nat)
+    &&& s.vwf() && s.vbits() == 8 * n && s.le_bytes() == shl_bytes(z.le_bytes(), apos(e, n, k) as nat)
+    &&& new_r.vwf() && new_r.vbits() == 8 * n
+    &&& old_r is None ==> k == 0 && new_r == s
+    &&& old_r matches Some(r) ==> r.vwf() && r.vbits() == 8 * n && acc(e, c, bk, address, n, r, k) && or_bytes_ok(r.le_bytes(), s.le_bytes(), new_r.le_bytes())
+}
+
 /// one round of the single-byte fallback: zero-extend the byte, shift it into place, or it in
 pub proof fn lemma_acc_step<V: Value>(e: Endian, c: Cells<V>, bk: Option<SecMap>, address: u64, n: int, k: int,
     old_r: Option<V>, b8: V, z: V, s: V, new_r: V)
-    requires
-        0 <= k < n,
-        val_ok(b8), b8.vbits() == 8, reads(e, c, bk, (address + k) as u64, b8), address + k <= u64::MAX,
-        z.vwf(), z.vbits() == 8 * n, z.le_bytes() == zext_bytes(b8.le_bytes(), n as nat),
-        s.vwf(), s.vbits() == 8 * n, s.le_bytes() == shl_bytes(z.le_bytes(), apos(e, n, k) as nat),
-        new_r.vwf(), new_r.vbits() == 8 * n,
-        old_r is None ==> k == 0 && new_r == s,
-        old_r matches Some(r) ==> r.vwf() && r.vbits() == 8 * n && acc(e, c, bk, address, n, r, k) && or_bytes_ok(r.le_bytes(), s.le_bytes(), new_r.le_bytes()),
+    requires acc_step_pre(e, c, bk, address, n, k, old_r, b8, z, s, new_r),
     ensures acc(e, c, bk, address, n, new_r, k + 1),
 {
     b8.lemma_value_laws();
@@ -276,7 +282,9 @@ where
     let ghost old_result = result;
 //@ after 0 `None => Some(value), };`
     proof {
-        lemma_acc_step(ge, gc, gbk, address, gn, offset as int, old_result, g_b8, g_z, g_s, result->Some_0);
+        if acc_step_pre(ge, gc, gbk, address, gn, offset as int, old_result, g_b8, g_z, g_s, result->Some_0) {
+            lemma_acc_step(ge, gc, gbk, address, gn, offset as int, old_result, g_b8, g_z, g_s, result->Some_0);
+        }
         assert(full_at(ge, gc, gbk, (address + offset) as u64 + 0) is Some);
     }
 //@ before 0 `Ok(result)`
